@@ -104,7 +104,7 @@ def generate(rng, tier, n):
                     yield c
             continue
         sched = []
-        nf = rng.choice([0, 1, 1, 2, 2, 2])
+        nf = rng.choice([0, 1, 1, 2, 2, 2] + ([3, 3] if tier == "thorough" else []))
         for _ in range(nf):
             k = rng.randint(0, hi + 1)
             if k not in [s[0] for s in sched]:
